@@ -114,6 +114,11 @@ func (u Union) generateDecodeBebop(w *iohelp.ErrorWriter, settings GenerateSetti
 	writeLine(w, "func (bbp *%s) DecodeBebop(ior io.Reader) (err error) {", exposedName)
 	writeLine(w, "\tr := iohelp.NewErrorReader(ior)")
 	writeLine(w, "\tbodyLen := iohelp.ReadUint32(r)")
+	// a failed read yields 0, which may be a discriminator: without this check a union
+	// whose branch 0 contains the union itself would recurse without end on a dead stream
+	writeLine(w, "\tif r.Err != nil {")
+	writeLine(w, "\t\treturn r.Err")
+	writeLine(w, "\t}")
 	writeLine(w, "\tbaseReader := r.Reader")
 	writeLine(w, "\tlimitReader := &io.LimitedReader{R: baseReader, N: int64(bodyLen)+1}")
 	writeLine(w, "\tr.Reader = limitReader")
